@@ -58,6 +58,7 @@ type VC struct {
 	quantKeys   map[string]bool
 	callArgs    map[string][]cval
 	callCount   map[string]int
+	argCount    map[string]int
 	callReach   map[string]Term
 	curReach    Term
 	curFrame    *Frame
@@ -390,7 +391,8 @@ func (vc *VC) older(st *State, v Term, sort string) {
 		vc.sc.Assume(st.reach, sx("<", sx("birth", sx("root", v)), st.clk))
 	case "Slice":
 		vc.sc.Assume(st.reach, And(sx("<", sx("birth", sx("root", vc.sptr(v))), st.clk),
-			sx("<=", "0", sx("s-len", v)), sx("<=", sx("s-len", v), sx("s-cap", v))))
+			sx("<=", "0", sx("s-len", v)), sx("<=", sx("s-len", v), sx("s-cap", v)),
+			Ite(Eq(vc.sptr(v), "nilref"), Eq(sx("s-len", v), "0"), Eq(sx("okind", sx("root", vc.sptr(v))), "1"))))
 	}
 }
 
@@ -693,5 +695,15 @@ func (vc *VC) finalizeEntryTrust() {
 		pred := "entryT_" + sanitize(key)
 		m0 := vc.memInit(key, "(Array Ref "+sort+")")
 		vc.sc.Axiom(fmt.Sprintf("(forall ((?a Ref)) (! (%s (select %s ?a)) :pattern ((select %s ?a))))", pred, m0, m0))
+	}
+}
+
+// structResult: a pointer-to-struct value produced by a call denotes a struct object (or a field of
+// one), not an element of a slice backing array (same assumption as for pointer parameters).
+func (vc *VC) structResult(st *State, v Term, t types.Type) {
+	if et, ok := typesPointerElem(t); ok {
+		if _, isStruct := structOf(et); isStruct {
+			vc.sc.Assume(st.reach, Or(Eq(v, "nilref"), Eq(sx("okind", sx("root", v)), "0")))
+		}
 	}
 }
